@@ -286,3 +286,23 @@ Proof.
   intros SS H. apply cii_first_larger in H as [_ (Hk & Hlt & Hat)].
   apply sorted_insert; assumption.
 Qed.
+
+(** totality inside the property's quantifier: existing children and the new child all
+    named by the rule -> an index is returned (no refusal, no ValueError) *)
+Lemma scan_not_badrule names rx w : forall i, scan names rx w i <> BadRule.
+Proof.
+  induction w as [|c w IH]; intros i; cbn [scan]; [discriminate|].
+  destruct (index_of c names) as [rc|]; [|discriminate].
+  destruct (Nat.ltb rx rc); [discriminate|apply IH].
+Qed.
+
+Theorem cii_total names w x :
+  In x names -> (forall c, In c w -> In c names) -> exists k, child_insert_index names w x = Idx k.
+Proof.
+  intros Hx Hw. destruct (child_insert_index names w x) as [k| | |] eqn:E.
+  - exists k; reflexivity.
+  - exfalso. apply cii_refuse_iff in E. exact (E Hx).
+  - exfalso. apply cii_crash in E as (c & Hc & Hn). exact (Hn (Hw c Hc)).
+  - exfalso. unfold child_insert_index in E. destruct (index_of x names); [|discriminate].
+    exact (scan_not_badrule _ _ _ _ E).
+Qed.
